@@ -125,6 +125,84 @@ def run_for_property(prop, seed=0):
     return summ, bad
 
 
+def _eval_patch(args):
+    """Evaluate ONE property's rules on a scratch copy of the package with ``patch`` applied (scratch copy removed)."""
+    prop, kind, pid, patch = args
+    import importlib
+    import shutil
+    import subprocess
+    import tempfile
+
+    from .model import REPO, AnalysisError, Repo
+    from .report import evaluate, load_known
+
+    d = tempfile.mkdtemp(prefix="sa-control-")
+    try:
+        shutil.copytree(os.path.join(REPO, "dask_array"), os.path.join(d, "dask_array"), ignore=shutil.ignore_patterns("__pycache__", "*.pyc", "*.so"))
+        if os.path.isfile(os.path.join(REPO, "pyproject.toml")):
+            shutil.copy(os.path.join(REPO, "pyproject.toml"), d)
+        p = subprocess.run(["patch", "-p1", "-s", "-i", patch], cwd=d, capture_output=True, text=True)
+        if p.returncode != 0:
+            return kind, pid, "does-not-apply", []
+        known, _ = load_known()
+        mod = importlib.import_module(f"sa.rules.{prop.lower()}")
+        try:
+            results = evaluate(prop, mod.RULES, Repo(d), "quick")
+        except AnalysisError as e:
+            return kind, pid, "analysis-error", [str(e)[:160]]
+        fs = [f"{f.rule} {f.construct}"[:160] for r in results for f in r.findings if f.key not in known]
+        return kind, pid, ("reported" if fs else "silent"), fs[:3]
+    finally:
+        shutil.rmtree(d, ignore_errors=True)
+
+
+def controls_for_property(prop):
+    """Thorough tier: this property's check against every kept negative control (behaviour-preserving refactorings written
+    by sub-agents: must stay silent) and every kept seeded change (which of them this check reports), on scratch copies."""
+    from concurrent.futures import ProcessPoolExecutor
+
+    t0 = time.time()
+    base = os.path.dirname(os.path.dirname(os.path.abspath(__file__)))
+    jobs = []
+    for kind, sub in (("refactoring", "refactors"), ("seeded", "seeded")):
+        root = os.path.join(base, sub)
+        if not os.path.isdir(root):
+            continue
+        for pid in sorted(os.listdir(root)):
+            patch = os.path.join(root, pid, "patch.diff")
+            if os.path.isfile(patch):
+                jobs.append((prop, kind, pid, patch))
+    if not jobs:
+        return None
+    with ProcessPoolExecutor(max_workers=min(16, os.cpu_count() or 4)) as ex:
+        res = list(ex.map(_eval_patch, jobs))
+    ref = [r for r in res if r[0] == "refactoring"]
+    sed = [r for r in res if r[0] == "seeded"]
+    alarms = [r for r in ref if r[2] in ("reported", "analysis-error")]
+    own = [r for r in sed if r[1].split("-")[0] == prop]
+    summ = {
+        "refactorings": len(ref),
+        "refactorings_silent": sum(1 for r in ref if r[2] == "silent"),
+        "refactorings_not_applicable_to_tree": sum(1 for r in ref if r[2] == "does-not-apply"),
+        "seeded_changes": len(sed),
+        "seeded_reported_by_this_check": sorted(r[1] for r in sed if r[2] == "reported"),
+        "seeded_written_against_this_property": len(own),
+        "of_those_reported_by_this_check": sum(1 for r in own if r[2] == "reported"),
+        "wall_s": round(time.time() - t0, 2),
+    }
+    print(f"[{prop}] controls: {summ['refactorings_silent']}/{summ['refactorings']} behaviour-preserving refactorings silent; reports {len(summ['seeded_reported_by_this_check'])} of {summ['seeded_changes']} seeded changes "
+          f"({summ['of_those_reported_by_this_check']}/{summ['seeded_written_against_this_property']} of those written against {prop})")
+    for r in alarms:
+        print(f"CONTROL-FAIL property={prop} refactoring={r[1]} {r[2]} {r[3]}")
+    p = os.path.join(EVIDENCE_DIR, f"{prop}.json")
+    if os.path.isfile(p):
+        ev = json.load(open(p))
+        ev["coverage"]["controls"] = {"summary": summ, "false_alarms": [list(r) for r in alarms]}
+        ev["wall_s"] = round(ev.get("wall_s", 0) + time.time() - t0, 3)
+        json.dump(ev, open(p, "w"), indent=1, default=str)
+    return summ
+
+
 def main(seed=0):
     vs = variants_for(None)
     res = run_many(vs)
